@@ -55,7 +55,8 @@ def gen_tree(rng, tree_id, n=None, with_context=False, with_prevent=False, aimed
                 if gl:
                     g = rng.choice(gl)
                     nodes[j]["steps"].append(["passfn", f, c, nodes[g]["fn"]])
-                    nodes[c]["steps"].append(["viaarg", nodes[g]["fn"], g])
+                    if (c + g) % 3:  # (no draw) every third child is handed the function value and never applies it
+                        nodes[c]["steps"].append(["viaarg", nodes[g]["fn"], g])
                 else:
                     nodes[j]["steps"].append(["call", f, c])
     for j in range(1, n):
